@@ -122,7 +122,7 @@ P_METHOD = [None, "lsq_linear", "lsq"]
 P_B = [None, "velocity", "acceleration"]
 P_FIT = ["default", "taubinSVD"]
 P_ANGLE = ["default", "inf", 2.5]
-P_VARIANT = ["rebuild", "no-rebuild", "other-frame-between"]
+P_VARIANT = ["rebuild", "no-rebuild", "other-frame-between", "other-object-first"]
 P_OPTS = [(m, b, f, a) for m in P_METHOD for b in P_B for f in P_FIT for a in P_ANGLE]
 PAIRS_SIZE = len(P_OPTS) * len(P_OPTS) * len(P_VARIANT)
 
@@ -167,6 +167,19 @@ def gen_pairs_trace(seed, tier):
                  "sess": 0, "thread": 0}]
 
     X, Y = P_OPTS[xi], P_OPTS[yi]
+    if var == "other-object-first":
+        # a second notebook on other data solves its LAST frame (backward differences) with X, then this one
+        # solves its last frame with Y: nothing of the first object may show in the second
+        spec_b = TS.random_spec(r_in, max_side=3, kmax=4, for_solver=True, frames=3)
+        sess_b = {"spec": spec_b, "frames": 3, "times": [0.0, 1.0, 2.5], "path": "direct", "cm": False, "gt": True}
+        def on(st, s_):
+            st = dict(st)
+            st["sess"] = s_
+            return st
+        steps = [on(build(X, 2), 1), on(solve(X, 2), 1)] + [on(x, 1) for x in press(2)]
+        steps += [build(Y, 2), solve(Y, 2)] + press(2)
+        return {"kind": "solver", "prop": "C10", "config": "pairs", "seed": seed, "threads": 1, "sessions": [sess, sess_b],
+                "steps": steps, "grid": {"series": series_no, "first": list(X), "then": list(Y), "variant": var}}
     steps = [build(X, 0), solve(X, 0)] + press(0)
     if var == "other-frame-between":
         steps += [build(X, 1), solve(X, 1)] + press(1)
